@@ -111,6 +111,13 @@ def _dynname(context, config):
     return "dyn.dat"
 
 
+class GenLeaf(Instrumented, Config):
+    """Used as the *default value* of a configuration-typed parameter: every owner gets its own copy."""
+
+    w: Param[int] = 0
+    leafpath: Annotated[Path, pathgenerator("leaf.txt")]
+
+
 class Gen(Instrumented, Config):
     """Generated paths in the three declaration styles, nestable everywhere."""
 
@@ -124,6 +131,7 @@ class Gen(Instrumented, Config):
     lds: Param[List[Dict[str, "Gen"]]] = []
     dls: Param[Dict[str, List["Gen"]]] = {}
     dds: Param[Dict[str, Dict[str, "Gen"]]] = {}
+    dsub: Param[GenLeaf] = GenLeaf()
 
 
 class Artifact(Instrumented, Config):
